@@ -458,6 +458,11 @@ def binop(ex, op, l, r, node):
             return z3.Or(l, r) if not isinstance(a, bool) and not isinstance(b, bool) else (b if a is False else a)
         if op == "BitXor":
             return z3.Xor(l if not isinstance(l, bool) else z3.BoolVal(l), r if not isinstance(r, bool) else z3.BoolVal(r))
+    if op == "Add" and (isinstance(l, str) or isinstance(r, str)):
+        from .textmodel import concat
+        res = concat(l, r)
+        if res is not None:
+            return res
     raise U(f"binary {op} on {type(l).__name__}, {type(r).__name__}", node)
 
 
